@@ -11,7 +11,9 @@ FORBIDDEN = re.compile(r"\bsorry\b|\badmit\b|^axiom |native_decide|bv_decide|imp
 TRUSTED_BASE = [
     "Lean 4.33 kernel (lake build; leanchecker re-check in the thorough tier)",
     "axioms allowed: propext, Classical.choice, Quot.sound (audited per theorem by #print axioms on every run)",
-    "hand-written executable models in lean/TE/Model tied to /repo by the differential correspondence in harness/ (bounded by its generators)",
+    "hand-written executable models in lean/TE/Model tied to /repo by the differential correspondence in harness/ (bounded by its generators); "
+    "where a translator regenerates the model's shape from the source (class plumbing, ring-buffer plumbing, the 21 count-metric kernels, input checks, "
+    "effects, states, dtypes, index sites) the tie is the translator plus the theorem 'generated = hand-written'",
     "translators in harness/translators (regenerate lean/TE/Gen from /repo's working tree each run)",
     "torch, CPython",
 ]
